@@ -117,6 +117,18 @@ def handle : Handler
       | .error e => some (showErr e)
       | .ok k => some s!"ok {showList k.labels} {optShow k.labelsRow} {optShow k.labelsCol} {showList k.centers} {optShow k.centersRow} {optShowI k.centersCol}")
         "bad-args"
+  | "c05.kcenters_full", [nc, ni, mi, bip, nRow, nCol, pos, cs, ls, im] => some <| Option.getD (do
+      -- whole fit: the recorded centres of every restart are replayed as the random choices, the recorded
+      -- labels as the assignment of that restart
+      let cs ← natListList? cs
+      let ls ← natListList? ls
+      let chooseOf := fun (i t : Nat) (_ : List Nat) => (cs.getD i []).getD t 0
+      let classify := fun (i : Nat) (_ : List Nat) => ls.getD i []
+      match kcentersFitFull (← nc.toInt?) (← ni.toInt?) (← mi.toInt?) (← bool? bip) (← nRow.toNat?) (← nCol.toNat?)
+              (← pos? pos) chooseOf classify (← im.toNat?) with
+      | .error e => some (showErr e)
+      | .ok (k, calls) => some s!"ok {calls} {showList k.labels} {optShow k.labelsRow} {optShow k.labelsCol} {showList k.centers} {optShow k.centersRow} {optShowI k.centersCol}")
+        "bad-args"
   | "c05.initcenters", [bip, nRow, nCol, pos, nc, choices] => some <| Option.getD (do
       -- replays `_init_centers` with the recorded choices; `contract` = every choice was offered
       let choices ← natList? choices
